@@ -133,7 +133,7 @@ func c05Enumerate(tier string, emit explore.Emit) {
 	for _, nc := range []int{2, 0} {
 		c05Programs(c05Ops, d1, nc, add)
 	}
-	core := []string{"r", "c=T", "a-", "e"}
+	core := []string{"r", "c=T", "w", "a-", "e"}
 	var progs2, progs3 []string
 	c05Programs(core, d2, 2, func(p string, _ int) { progs2 = append(progs2, p) })
 	c05Programs(core, d3, 2, func(p string, _ int) { progs3 = append(progs3, p) })
